@@ -135,6 +135,7 @@ def main():
     ndocs = nbase + nfocus
     rng = run.rng
     blocks, docs, nq, n_err, param_fail = [], {}, 0, 0, []
+    n_cached = 0
     src, snap = Counter(), Counter()
     nclauses = len(CLAUSES)
     for k in range(ndocs):
@@ -158,6 +159,28 @@ def main():
             owned = all(e.get_doc() is obj for r in obj.iter_regions() for e in r.dfs_iterator())
             if not same: param_fail.append((k, str(t), "document parameters differ from the source"))
             if not owned: param_fail.append((k, str(t), "an element of the snapshot is not owned by the snapshot"))
+        # the same two clauses for snapshots computed WITH the significant-times object, at times before the first significant time,
+        # between times and after the last (a snapshot that shows nothing still carries the source's parameters)
+        try:
+            from ttconv.isd import ISD
+            sig = ISD.significant_times(d)
+        except Exception:
+            sig = None
+        if sig is not None:
+            st = sorted(sig)
+            probes = ([st[0] - 1, st[0] / 2] if st and st[0] > 0 else []) + ([-1] if True else []) + rng.sample(qs, min(3, len(qs))) + ([st[-1] + 1] if st else [])
+            for t in probes:
+                try:
+                    obj = ISD.from_model(d, t, sig)
+                except Exception:
+                    continue
+                n_cached += 1
+                same = (obj.get_lang() == d.get_lang() and obj.get_cell_resolution() == d.get_cell_resolution() and
+                        obj.get_px_resolution() == d.get_px_resolution() and obj.get_active_area() == d.get_active_area() and
+                        obj.get_display_aspect_ratio() == d.get_display_aspect_ratio())
+                owned = all(e.get_doc() is obj for r in obj.iter_regions() for e in r.dfs_iterator())
+                if not same: param_fail.append((k, str(t), "document parameters of the snapshot computed with the significant-times object differ from the source"))
+                if not owned: param_fail.append((k, str(t), "an element of the snapshot computed with the significant-times object is not owned by the snapshot"))
         nq += len(qs); docs[k] = (d, qs)
         defs = f"Definition d{k} := {L.doc_lit(d)}.\nDefinition q{k} : list (Q * option (list elem)) := [{'; '.join(items)}]."
         slots = [f"cases_isd d{k} q{k}"] + [f"cases_clause {i} [] false q{k}" for i in range(nclauses)] + [f"cases_wf d{k}"]
